@@ -1,6 +1,6 @@
 ---- MODULE AlgebraTrace ----
 (* Validation of recorded calls of the real instances (impl -> spec), batched: each record is one experiment
-     [inst, e, a, b, res, empty (monoid constructors only), calls |-> <<[which, args, res], ...>>]
+     [inst, e, inner (empty of a nested inner monoid, else 0), a, b, res, empty (monoid constructors only), calls |-> <<[which, args, res], ...>>]
    with values in the encoding of Algebra.tla (int: table index, str: byte codes, num: plain).
      P   Result     res is the promised result (built-in ==, <; base on the projected values in order; op(a, b))
          Empty      Empty() of a constructed monoid is the given element
@@ -21,13 +21,13 @@ Failing ==
   (IF T.res = ExpRes(d, T.a, T.b) THEN {} ELSE {"Result"})
   \cup (IF d.cls = "monoid" /\ T.empty # T.e THEN {"Empty"} ELSE {})
   \cup (IF Delegated(d, T.a, T.b, T.res, T.calls) THEN {} ELSE {"Delegated"})
+  \cup (IF T.inst \in Nested /\ T.inner = T.e THEN {"HARNESS"} ELSE {})     \* the inner monoid must have another empty
 FirstDiff == LET exp == ExpCalls(d, T.a, T.b)
                  n == IF Len(exp) < Len(T.calls) THEN Len(exp) ELSE Len(T.calls)
                  bad == {j \in 1..n : exp[j] # T.calls[j]}
              IN IF bad # {} THEN CHOOSE j \in bad : \A q \in bad : j <= q
                 ELSE IF Len(exp) # Len(T.calls) THEN n + 1 ELSE 0
-Judge ==
-  /\ (Failing # {} => PrintT(ToJson([t |-> "PVIOL", ti |-> ti, preds |-> Failing, want |-> ExpRes(d, T.a, T.b)])))
-  /\ (FirstDiff # 0 => PrintT(ToJson([t |-> "DRIFT", ti |-> ti, line |-> FirstDiff])))
-  /\ PrintT(ToJson([t |-> "DONE", ti |-> ti]))
+\* one line per record (a lost line is noticed: the orchestrator counts them): failing P predicates, promised result,
+\* first inner-call line the I layer cannot follow (0: none)
+Judge == PrintT(ToJson([t |-> "JUDGED", ti |-> ti, preds |-> Failing, want |-> ExpRes(d, T.a, T.b), drift |-> FirstDiff]))
 ====
